@@ -190,7 +190,9 @@ def strategy(tier):
         fills = [[draw(vals), draw(st.sampled_from((1.0, 1.0, 2.0, 0.5)))] for _ in range(n)]
         probes = [draw(vals) for _ in range(draw(st.integers(1, 4)))]
         queries = [[draw(vals), draw(vals)] for _ in range(draw(st.integers(1, 4)))]
-        return {"mode": "1d", "kind": kind, "cfg": cfg, "fam": fam, "fills": fills, "probes": probes, "queries": queries}
+        more = [[draw(vals), draw(st.sampled_from((1.0, 2.0, 0.5)))] for _ in range(draw(st.integers(0, 6)))]
+        return {"mode": "1d", "kind": kind, "cfg": cfg, "fam": fam, "fills": fills, "probes": probes, "queries": queries,
+                "more": more, "mutation": draw(st.sampled_from(("iadd", "iadd", "fill", "fillnp", "add", "none")))}
 
     @st.composite
     def two_d(draw):
@@ -207,7 +209,8 @@ def strategy(tier):
         vy = st.sampled_from([v for v in crit_1d(kind, cfg["y"], 12) if abs(v) < 1e15] + [float("nan")])
         n = draw(st.integers(0, 20 if thorough else 10))
         fills = [[draw(vx), draw(vy), draw(st.sampled_from((1.0, 1.0, 2.0, 0.5)))] for _ in range(n)]
-        return {"mode": "2d", "kind": kind, "cfg": cfg, "fills": fills}
+        more = [[draw(vx), draw(vy), draw(st.sampled_from((1.0, 2.0, 0.5)))] for _ in range(draw(st.integers(0, 6)))]
+        return {"mode": "2d", "kind": kind, "cfg": cfg, "fills": fills, "more": more, "mutation": draw(st.sampled_from(("iadd", "fill", "none")))}
 
     @st.composite
     def cat(draw):
@@ -221,13 +224,40 @@ def strategy(tier):
 # ---------------------------------------------------------------------------------------------------------
 
 
-def check_1d(case):  # noqa: PLR0912, PLR0915
+def check_1d(case):
+    """The views are checked on the filled histogram, then again on the SAME object after a mutation (a += other
+    histogram, further fills row-wise or vectorised, or replaced by h + other): a derived view must never describe
+    an earlier state."""
     kind, cfg = case["kind"], case["cfg"]
     h = build_1d(kind, cfg)
     for x, w in case["fills"]:
         h.fill({"x": x}, w)
+    out = views_1d(case, h, "after the fills")
+    mutation = case.get("mutation", "none")
+    if mutation != "none" and case.get("more"):
+        if mutation in ("iadd", "add"):
+            g = build_1d(kind, cfg)
+            for x, w in case["more"]:
+                g.fill({"x": x}, w)
+            if mutation == "iadd":
+                h += g
+            else:
+                h = h + g
+        elif mutation == "fill":
+            for x, w in case["more"]:
+                h.fill({"x": x}, w)
+        else:
+            h.fill.numpy({"x": np.array([x for x, _ in case["more"]], dtype=np.float64)}, np.array([w for _, w in case["more"]], dtype=np.float64))
+        out2 = views_1d(case, h, f"after the fills and then {mutation}")
+        out = {"nontrivial": out["nontrivial"] or out2["nontrivial"], "labels": out["labels"] + ["mutation:" + mutation]}
+    return out
+
+
+def views_1d(case, h, when):  # noqa: PLR0912, PLR0915
+    kind, cfg = case["kind"], case["cfg"]
     v = View(kind, cfg, h)
     sig = {"kind": kind}
+    cfg = dict(cfg, _state=when)  # shown in every message
     first, last = v.full_range()
     nfull = last - first + 1
     interesting = False
@@ -352,29 +382,33 @@ def slot_1d(kind, cfg, x):
     return max(i for i, t in enumerate(ths) if x >= t)
 
 
-def check_2d(case):  # noqa: PLR0912, PLR0915
+def make_2d(kind, cfg):
     hg = lib()
-    kind, cfg = case["kind"], case["cfg"]
     qx = eval("lambda d: d['x']", {})  # noqa: S307
     qy = eval("lambda d: d['y']", {})  # noqa: S307
     cx, cy = cfg["x"], cfg["y"]
     if kind == "Bin":
-        h = hg.Bin(cx["num"], cx["low"], cx["high"], qx, hg.Bin(cy["num"], cy["low"], cy["high"], qy))
-    elif kind == "SparselyBin":
-        h = hg.SparselyBin(cx["binWidth"], qx, hg.SparselyBin(cy["binWidth"], qy, hg.Count(), hg.Count(), cy["origin"]), hg.Count(), cx["origin"])
-    else:
-        h = hg.IrregularlyBin(list(cx["edges"]), qx, hg.IrregularlyBin(list(cy["edges"]), qy))
-    cells = {}
-    outside = 0
-    irr_x, irr_y = {}, {}
-    for x, y, w in case["fills"]:
-        h.fill({"x": x, "y": y}, w)
+        return hg.Bin(cx["num"], cx["low"], cx["high"], qx, hg.Bin(cy["num"], cy["low"], cy["high"], qy))
+    if kind == "SparselyBin":
+        return hg.SparselyBin(cx["binWidth"], qx, hg.SparselyBin(cy["binWidth"], qy, hg.Count(), hg.Count(), cy["origin"]), hg.Count(), cx["origin"])
+    return hg.IrregularlyBin(list(cx["edges"]), qx, hg.IrregularlyBin(list(cy["edges"]), qy))
+
+
+class Ref2d:
+    """Per-row reference counts of a 2-D histogram."""
+
+    def __init__(self, kind, cfg):
+        self.kind, self.cfg = kind, cfg
+        self.cells, self.irr_x, self.irr_y, self.outside = {}, {}, {}, 0
+
+    def add(self, x, y, w):
+        kind, cx, cy = self.kind, self.cfg["x"], self.cfg["y"]
         i, j = slot_1d(kind, cx, x), slot_1d(kind, cy, y)
         if kind == "IrregularlyBin" and i is not None and j is not None:
             # the unbounded first / last bins are ordinary bins of an IrregularlyBin: its projections marginalise
             # over all of them (only NaN rows, which sit in nanflow, are left out)
-            irr_x[i] = irr_x.get(i, 0.0) + w
-            irr_y[j] = irr_y.get(j, 0.0) + w
+            self.irr_x[i] = self.irr_x.get(i, 0.0) + w
+            self.irr_y[j] = self.irr_y.get(j, 0.0) + w
         if kind == "IrregularlyBin":
             # the 2-D views cut the unbounded first and last bins of both axes
             nx, ny = len(cx["edges"]) + 1, len(cy["edges"]) + 1
@@ -383,11 +417,42 @@ def check_2d(case):  # noqa: PLR0912, PLR0915
             if j is not None and (j == 0 or j == ny - 1):
                 j = None
         if i is None or j is None:
-            outside += 1
-            continue
-        cells[(i, j)] = cells.get((i, j), 0.0) + w
+            self.outside += 1
+            return
+        self.cells[(i, j)] = self.cells.get((i, j), 0.0) + w
+
+
+def check_2d(case):
+    """As check_1d: the 2-D views are checked, the same object is mutated (+= / further fills), and checked again."""
+    kind, cfg = case["kind"], case["cfg"]
+    h = make_2d(kind, cfg)
+    ref = Ref2d(kind, cfg)
+    for x, y, w in case["fills"]:
+        h.fill({"x": x, "y": y}, w)
+        ref.add(x, y, w)
+    out = views_2d(kind, cfg, h, ref, "after the fills")
+    mutation = case.get("mutation", "none")
+    if mutation != "none" and case.get("more"):
+        if mutation == "iadd":
+            g = make_2d(kind, cfg)
+            for x, y, w in case["more"]:
+                g.fill({"x": x, "y": y}, w)
+            h += g
+        else:
+            for x, y, w in case["more"]:
+                h.fill({"x": x, "y": y}, w)
+        for x, y, w in case["more"]:
+            ref.add(x, y, w)
+        out2 = views_2d(kind, cfg, h, ref, f"after the fills and then {mutation}")
+        out = {"nontrivial": out["nontrivial"] or out2["nontrivial"], "labels": out["labels"] + ["mutation:" + mutation]}
+    return out
+
+
+def views_2d(kind, cfg, h, ref, when):  # noqa: PLR0912, PLR0915
+    cx, cy = cfg["x"], cfg["y"]
+    cells, outside, irr_x, irr_y = ref.cells, ref.outside, ref.irr_x, ref.irr_y
     sig = {"kind": kind, "view": "2d"}
-    what = f"{kind}x{kind} {cfg}"
+    what = f"{kind}x{kind} {cfg} ({when})"
     if kind == "SparselyBin" and not h.bins:
         return {"nontrivial": False, "labels": ["mode:2d", "kind:" + kind, "empty"]}
     if kind == "SparselyBin" and not any(b.bins for b in h.bins.values()):
@@ -402,12 +467,10 @@ def check_2d(case):  # noqa: PLR0912, PLR0915
         y0 = min(j for b in h.bins.values() for j in b.bins)
     else:
         x0, y0 = 1, 1
-    total = 0.0
     for (i, j), w in cells.items():
         gi, gj = j - y0, i - x0
         require(0 <= gi < grid.shape[0] and 0 <= gj < grid.shape[1], "grid-cell-missing", f"{what}: cell {(i, j)} holding {w} is outside the grid of shape {grid.shape}", sig)
         require(grid[gi, gj] == w, "grid-cell-wrong", f"{what}: grid cell for bins {(i, j)} is {grid[gi, gj]!r}, the rows routed there weigh {w!r}", sig)
-        total += w
     require(float(grid.sum()) == sum(cells.values()), "grid-total", f"{what}: grid sums to {float(grid.sum())!r}, the in-range weight is {sum(cells.values())!r}", sig)
     require(len(xr) == grid.shape[1] + 1 and len(yr) == grid.shape[0] + 1, "grid-ranges-length", f"{what}: {len(xr)} x-edges / {len(yr)} y-edges for a grid of shape {grid.shape}", sig)
     # projections
